@@ -159,7 +159,9 @@ impl Scenario for C29 {
                     Err(_) => Vec::new(),
                 }
             };
-            let work_cap = 1_500_000 / case.tree.nodes.len().max(1);
+            // a back-reference serialization of an n-node tree costs roughly n * 10 us: keep a case
+            // to a few seconds even for 12k-node trees
+            let work_cap = 300_000 / case.tree.nodes.len().max(1);
             let (limits, exhaustive) = limits_for(full.len(), &toks_api, case.extra_seed, &case.only, work_cap);
             if exhaustive {
                 out.count("exhaustive_sweeps", 1);
